@@ -7,7 +7,6 @@
 (***************************************************************************)
 EXTENDS TraceBase, CvssTables
 
-VARIABLE l
 
 Codes(fam, m) == IF fam = "v3" THEN V3Codes[m] ELSE V2Codes[m]
 CodeSet(fam, m) == Range(Codes(fam, m))
@@ -54,9 +53,7 @@ Verdict(ev) ==
          ELSE "ok"
     [] OTHER -> "harness:unknown event"
 
-Init == LoadTrace /\ l = 1
-Next == /\ l <= Len(Trace)
-        /\ LET v == Verdict(Trace[l]) IN IF v = "ok" THEN TRUE ELSE Report(l, v, "")
-        /\ l' = l + 1
-Spec == Init /\ [][Next]_l
+Init == LoadTrace /\ TraceInit
+Next == (l <= Len(Trace) /\ Step(Verdict(Trace[l]))) \/ Finish
+Spec == Init /\ [][Next]_<<l, nbad>>
 =============================================================================
